@@ -14,6 +14,7 @@ class Verdict:
         self.rejected = []     # (scenario id, line index within its projected trace, unmatched event, tlc output tail)
         self.events = 0
         self.tlc_states = 0
+        self.tlc_generated = 0
         self.tlc_runs = 0
         self.error = None
         self.skipped = 0
@@ -53,6 +54,7 @@ def validate(items, module="Trace_Rapid", cfg="Trace_Rapid.cfg", timeout=600, bo
         r = _run(module, cfg, allev, timeout)
         v.tlc_runs += 1
         v.tlc_states += r.distinct
+        v.tlc_generated += r.generated
         if r.error and "TRACE-REJECTED" not in r.out:
             v.error = "%s\n%s" % (r.error, r.out[-3000:])
             return v
